@@ -81,7 +81,8 @@ def assemble(pre, blocks, sep='\n'):
     return sep.join(lines)
 
 
-COMMENTS = ['# a comment', '#', '   # indented comment', '', '   ', '\t', '# [Not A Section]', '# match: contains("X")', '#filter: true']
+COMMENTS = ['# a comment', '#', '   # indented comment', '', '   ', '\t', '# [Not A Section]', '# match: contains("X")', '#filter: true',
+            '# was:\x0ccategory: Sports', '# note\u2028[Ghost]', '# nel\x85filter: false', '# fs\x1cmatch: true']
 
 
 def edit(pre, blocks, rnd, merchants):
@@ -145,7 +146,8 @@ def corrupt_merchants(pre, blocks, rnd):
     if cls == 'no-match':
         b[:] = [l for l in b if not l.lower().startswith('match:')]
     elif cls == 'unknown-property':
-        b.insert(rnd.randint(1, len(b)), rnd.choice(['colour: red', 'catgory: Food', 'matches: contains("X")', 'tag: x', 'note: hello']))
+        b.insert(rnd.randint(1, len(b)), rnd.choice(['colour: red', 'catgory: Food', 'matches: contains("X")', 'tag: x', 'note: hello', 'sub: x', 'cat: Food', 'categor: Food', 'Merch: X',
+                                                  ': value', 'ory: x', 'gory: Food', 'mat: true', 'tag s: a', 'ch: x']))
     elif cls == 'bad-let':
         b.insert(1, rnd.choice(['let: = 5', 'let: 5x = 1', 'let: x', 'let: x y = 1', 'let:']))
     elif cls == 'bad-field':
